@@ -14,6 +14,8 @@ JudgeEvent(e) ==
     [] e.kind = "limit_fanout" -> Judge_limit_fanout(e)
     [] e.kind = "insert_registers" -> Judge_insert_registers(e)
     [] e.kind = "acyclic_unroll_acyclic" -> Judge_acyclic_unroll_acyclic(e)
+    [] e.kind = "miter" -> Judge_miter(e)
+    [] e.kind = "ternary" -> Judge_ternary(e)
     [] e.kind = "cnf"          -> Judge_cnf(e)
     [] e.kind = "solve"        -> Judge_solve(e)
     [] e.kind = "model_count"  -> Judge_model_count(e)
